@@ -276,6 +276,29 @@ struct Corpus {
         P("name:formal", "func w(val " + n + ") is return " + n + " + " + n + "\nproc main() is 0(w(21))\n");
         P("name:array", "array " + n + "[3];\nproc main() is { " + n + "[2] := 8; 0(" + n + "[2]) }\n");
       }
+      // F9: large frames (stack offsets that need prefixes) and many formals; every local and formal is written and read back
+      for (int nl : {1, 14, 15, 16, 17, 40, 260}) for (int nf : {0, 1, 9, 10, 17}) {
+        std::string s = "func big(";
+        for (int i = 0; i < nf; i++) s += std::string(i ? ", " : "") + "val f" + std::to_string(i);
+        s += ") is ";
+        for (int i = 0; i < nl; i++) s += "var v" + std::to_string(i) + "; ";
+        s += "\n{ ";
+        for (int i = 0; i < nl; i++) s += "v" + std::to_string(i) + " := " + std::to_string(i * 3 + 1) + (nf ? " + f" + std::to_string(i % nf) : "") + "; ";
+        s += "return (v0 + v" + std::to_string(nl - 1) + ") + (v" + std::to_string(nl / 2) + " + id(v" + std::to_string((nl * 2) / 3) + ")) }\nfunc id(val n) is return n\nproc main() is 0(big(";
+        for (int i = 0; i < nf; i++) s += std::string(i ? ", " : "") + std::to_string(100 + i);
+        s += "))\n";
+        P("frame:locals" + std::to_string(nl), s);
+      }
+      // F10: long bodies: branch distances over if/while bodies that cross the 16/256/4096-byte encoding boundaries
+      for (int n : {1, 2, 3, 4, 5, 20, 40, 41, 42, 43, 44, 300, 680, 690, 700}) for (int shape = 0; shape < 3; shape++) {
+        std::string blk; for (int i = 0; i < n; i++) blk += "g := g + " + std::to_string(i % 7 + 1) + "; ";
+        std::string s = "var g; var h;\nproc main() is var x; { g := 0; h := 0; x := 0; ";
+        if (shape == 0) s += "if x = 0 then { " + blk + "h := 1 } else { h := 2 }; ";
+        else if (shape == 1) s += "if x = 1 then { h := 2 } else { " + blk + "h := 1 }; ";
+        else s += "while x < 2 do { " + blk + "x := x + 1 }; ";
+        s += "if g < 0 then 0(0 - 1) else 0(g + h) }\n";
+        P("long-body:" + std::to_string(n), s);
+      }
       add({"F4-F7:hand", (uint64_t)progs->size(), [progs](uint64_t i, std::string *shape) { if (shape) *shape = (*progs)[i].first; return (*progs)[i].second; }});
     }
   }
